@@ -394,7 +394,7 @@ impl Pool {
                     // harness's own callback panic is an index panic on the oracle side
                     res.scls = "panic".into();
                     let c = panic_class(&*p);
-                    res.smsg = if c == "callback" || c == "fmt" { c } else { "index".into() };
+                    res.smsg = if c == "callback" || c == "fmt" || c == "rcoverflow" { c } else { "index".into() };
                 }
             }
         }
@@ -421,6 +421,7 @@ impl Pool {
                 ss[h] = ss[op.g - 1].clone();
                 ok()
             }
+            "clone_ovf" => panic!("reference count overflow"),
             "clone_from" => {
                 let src = ss[op.g - 1].clone().unwrap();
                 ss[h].as_mut().unwrap().clone_from(&src);
@@ -607,6 +608,28 @@ impl Pool {
                 };
                 self.ls[h] = Some(v);
                 Out::Ok
+            }
+            "clone_ovf" => {
+                // the count is pushed above isize::MAX through the hook, the clone must panic and roll its increment back
+                let src = self.ls[op.g - 1].as_ref().unwrap();
+                let real = src.__verif_refcount().unwrap_or(0);
+                let high = isize::MAX as usize + 1;
+                src.__verif_poke_refcount(high);
+                let r = catch_unwind(AssertUnwindSafe(|| src.clone()));
+                let after = src.__verif_refcount().unwrap_or(0);
+                src.__verif_poke_refcount(real);
+                match r {
+                    Ok(c) => {
+                        std::mem::forget(c);
+                        panic!("harness: clone succeeded although the count was above isize::MAX")
+                    }
+                    Err(p) => {
+                        if after != high {
+                            panic!("harness: the overflowing clone left the count at {after:#x} instead of rolling back to {high:#x}")
+                        }
+                        std::panic::resume_unwind(p)
+                    }
+                }
             }
             "clone_from" => {
                 let src = self.ls[op.g - 1].take().unwrap();
